@@ -13,6 +13,7 @@ Truncation: the encoded size is ANY function `size` of (number of keys shown,
 truncation notice); `limit` and the number of keys `actual` are arbitrary.
 -/
 import SerfProofs.Lemmas.KeyAgg
+import SerfModel.Gen.KeyStream
 namespace SerfProofs.C23
 open SerfModel SerfModel.KeyAgg SerfProofs.KeyAgg
 
@@ -30,6 +31,35 @@ theorem C23_aggregate (numNodes : Nat) (rs : List NR) :
   refine ⟨h1, by simpa using h2, by simpa using h3, ?_, ?_⟩
   · intro k; have := h4 k; simpa [cnt] using this
   · intro k; have := h5 k; simpa [cnt] using this
+
+/-- **Messages.** For every sender, the `Messages` entry is what the LAST consumed reply of that sender that
+writes a message wrote (a rejection notice, the message of a failed reply — also an empty one —, the non-empty
+message of a successful reply), and there is no entry if none did. -/
+theorem C23_messages (numNodes : Nat) (rs : List NR) (s : String) :
+    alookup (streamKeyResp numNodes rs).messages s = lastMsg (used numNodes rs) s := by
+  rw [streamKeyResp_eq, fold_messages]
+  simp
+
+/-- … in particular every failed consumed reply leaves an entry for its sender. -/
+theorem C23_failed_has_message (numNodes : Nat) (rs : List NR) (r : NR)
+    (hr : r ∈ used numNodes rs) (hf : failed r = true) :
+    (alookup (streamKeyResp numNodes rs).messages r.sender).isSome = true := by
+  rw [C23_messages]
+  unfold lastMsg
+  have hm : (msgOf r).isSome = true := by
+    unfold failed at hf; unfold msgOf
+    cases hp : r.payload with
+    | badType => rfl
+    | undecodable => rfl
+    | decoded n => simp [hp] at hf; simp [hf]
+  obtain ⟨m, hm'⟩ := Option.isSome_iff_exists.mp hm
+  have hmem : m ∈ ((used numNodes rs).filter (·.sender == r.sender)).filterMap msgOf :=
+    List.mem_filterMap.mpr ⟨r, List.mem_filter.mpr ⟨hr, by simp⟩, hm'⟩
+  cases hl : (((used numNodes rs).filter (·.sender == r.sender)).filterMap msgOf).getLast? with
+  | some x => rfl
+  | none =>
+    rw [List.getLast?_eq_none_iff] at hl
+    rw [hl] at hmem; simp at hmem
 
 /-- With at least one member, the consumed replies are the first `numNodes`. -/
 theorem C23_used (numNodes : Nat) (rs : List NR) (h : 0 < numNodes) : used numNodes rs = rs.take numNodes := by
@@ -87,6 +117,106 @@ theorem C23_error_iff_replies (numNodes : Nat) (rs : List NR) (h : 0 < numNodes)
   · rintro (h1 | h2)
     · exact Or.inl h1
     · exact Or.inr (by omega)
+
+/-- With no member at all (`numNodes = 0`, not reachable: the node itself is a member) the loop never returns
+early, every reply is consumed, and any reply is one too many. -/
+theorem C23_error_iff_zero_members (rs : List NR) :
+    (keyRequestError (streamKeyResp 0 rs)).isSome ↔ (∃ r ∈ rs, failed r = true) ∨ rs ≠ [] := by
+  rw [C23_error_iff]
+  simp [used, List.length_eq_zero_iff]
+
+/-- The hypothesis of `C23_keys_count_nodes` is needed: a single reply listing a key twice counts it twice
+(the code does `resp.Keys[key]++` per listing, not per node). -/
+theorem C23_key_listed_twice_counterexample :
+    cnt (streamKeyResp 1 [⟨"a", .decoded ⟨true, "", ["k", "k"], "k"⟩⟩]).keys "k" = 2 := by decide
+
+/-! ### Tie to the source (regenerated on every run) -/
+
+/-- **The receive loop as it is in the source**: a FRESH `var nodeResponse` per reply, `NumResp++` first
+and unconditional, the type check and the decode each counting an error on rejection, then the effects,
+then the early return when `NumResp == NumNodes`; the type byte is the model's. -/
+theorem C23_stream_shape_gen :
+    Gen.KeyStream.shape.asModelled = true ∧ Gen.KeyStream.responseType = keyResponseType.toNat := by decide
+
+/-- **When each effect of a decoded reply happens** (path conditions regenerated from the nested ifs):
+`NumErr++` for EVERY reply with `Result = false` — whether or not it carries a message —, a message
+entry for failed replies and for successful ones with a non-empty message, the keys and the primary key
+always. -/
+theorem C23_effect_guards_gen (n : NodeKeyResp) :
+    Gen.KeyStream.errGuard n = !n.result ∧
+    Gen.KeyStream.msgGuard n = (!n.result || (n.result && decide (n.message.length > 0))) ∧
+    Gen.KeyStream.keysGuard n = true ∧ Gen.KeyStream.primaryGuard n = true := by
+  simp [Gen.KeyStream.errGuard, Gen.KeyStream.msgGuard, Gen.KeyStream.keysGuard, Gen.KeyStream.primaryGuard]
+
+/-- … hence the transcribed loop body is the source's. -/
+theorem C23_step_gen (resp : KeyResponse) (r : NR) :
+    stepOneG Gen.KeyStream.errGuard Gen.KeyStream.msgGuard Gen.KeyStream.keysGuard Gen.KeyStream.primaryGuard resp r =
+      stepOne resp r := by
+  unfold stepOneG stepOne
+  cases r.payload with
+  | badType => rfl
+  | undecodable => rfl
+  | decoded n =>
+    cases hr : n.result <;> by_cases hm : n.message.length > 0 <;>
+      simp [Gen.KeyStream.errGuard, Gen.KeyStream.msgGuard, Gen.KeyStream.keysGuard, Gen.KeyStream.primaryGuard, hr, hm]
+
+/-- The error checks of `handleKeyRequest` as written: first `NumErr != 0`, then `NumResp != NumNodes`
+(the order `keyRequestError` transcribes), with `NumNodes` taken from memberlist before the replies are read. -/
+theorem C23_error_checks_gen :
+    Gen.KeyStream.errorChecks = [("resp.NumErr != 0", "failure"), ("resp.NumResp != resp.NumNodes", "missing")] ∧
+    Gen.KeyStream.numNodesSource = "k.serf.memberlist.NumMembers()" := by decide
+
+/-- Regression witness: with `NumErr++` only under a non-empty message (guard
+`len(Message) > 0 && !Result`), a node that fails WITHOUT a message is not counted and the operation
+reports success. -/
+theorem C23_silent_failure_counterexample :
+    let step := stepOneG (fun n => decide (n.message.length > 0) && !n.result) (fun n => decide (n.message.length > 0))
+                  (fun _ => true) (fun _ => true)
+    keyRequestError (step { numNodes := 1 } ⟨"a", .decoded ⟨false, "", [], ""⟩⟩) = none ∧
+    keyRequestError (stepOne { numNodes := 1 } ⟨"a", .decoded ⟨false, "", [], ""⟩⟩) = some (.failures 1 1) := by
+  decide
+
+theorem streamRawLoop_fresh (dec : DecoderInto) (rs : List (String × Bytes)) :
+    ∀ (resp : KeyResponse) (var : NodeKeyResp),
+      streamRawLoop true dec resp var rs =
+        streamLoop resp (rs.map fun sp => ⟨sp.1, (classifyInto dec zeroResp sp.2).1⟩) := by
+  induction rs with
+  | nil => intro resp var; rfl
+  | cons sp rs ih =>
+    intro resp var
+    obtain ⟨sender, p⟩ := sp
+    simp only [streamRawLoop, List.map_cons, streamLoop, if_true]
+    split
+    · rfl
+    · exact ih _ _
+
+/-- **Each reply is decoded on its own**: with the decode target declared inside the loop (as the source
+has it) the loop over raw payloads and a stateful decoder is `streamKeyResp` over the replies classified
+from a ZERO value — a reply that omits fields gets zero values, never the previous reply's; all the
+aggregation theorems above therefore apply to raw reply streams. -/
+theorem C23_fresh_target (dec : DecoderInto) (numNodes : Nat) (rs : List (String × Bytes)) :
+    streamKeyRespRaw true dec numNodes rs =
+      streamKeyResp numNodes (rs.map fun sp => ⟨sp.1, (classifyInto dec zeroResp sp.2).1⟩) :=
+  streamRawLoop_fresh dec rs _ _
+
+/-- A msgpack-like stateful decoder: byte 1 = error; byte 2 = the full reply {Result:true, Keys:[k], PrimaryKey:k};
+byte 3 = the minimal reply {Result:true} (other fields keep what the target held). -/
+def keepDec : DecoderInto := fun prev b =>
+  match b with
+  | 1 :: _ => none
+  | 2 :: _ => some ⟨true, "", ["k"], "k"⟩
+  | 3 :: _ => some { prev with result := true }
+  | _ => some prev
+
+example : cnt (streamKeyRespRaw true keepDec 2 [("a", [8, 2]), ("b", [8, 3])]).keys "k" = 1 := by decide
+
+/-- Regression witness (the hoisted `var nodeResponse`): the minimal reply of node b inherits node a's keys and
+primary key: key `k` is reported on 2 nodes although only one holds it. -/
+theorem C23_reused_target_counterexample :
+    cnt (streamKeyRespRaw false keepDec 2 [("a", [8, 2]), ("b", [8, 3])]).keys "k" = 2 ∧
+    cnt (streamKeyRespRaw false keepDec 2 [("a", [8, 2]), ("b", [8, 3])]).primary "k" = 2 ∧
+    cnt (streamKeyRespRaw true keepDec 2 [("a", [8, 2]), ("b", [8, 3])]).primary "k" = 1 := by
+  decide
 
 /-! ### truncation -/
 
@@ -171,6 +301,12 @@ theorem C23_one_key_fits (size : SizeFn) (limit actual : Nat)
     simp [fits] at this
     omega
 
+/-- The hypothesis `25 ≤ limit` of `C23_one_key_fits` is needed: with limit 24 the loop tries only the untruncated
+list (`24/25 = 0` prefixes), so two 10-byte keys that do not fit together yield no reply although one would fit. -/
+theorem C23_small_limit_counterexample :
+    keyListResponse (fun n _ => 4 + 10 * n) 20 2 = .error ∧ (fun (n : Nat) (_ : Notice) => 4 + 10 * n) 1 (some 1) ≤ 20 := by
+  decide
+
 /-- Same, with the code's own assumption about sizes instead of `25 ≤ limit`: every
 key costs at least 25 bytes. -/
 theorem C23_one_key_fits_sized (size : SizeFn) (limit actual : Nat)
@@ -185,6 +321,8 @@ private def r4 : KeyResponse :=
   streamKeyResp 3 [okR "a" ["k1", "k2"] "k1", ⟨"b", .decoded ⟨false, "boom", [], ""⟩⟩, ⟨"c", .undecodable⟩, okR "d" ["k1"] "k1"]
 example : r4.numResp = 3 ∧ r4.numErr = 2 ∧ cnt r4.keys "k1" = 1 ∧ cnt r4.keys "k2" = 1 ∧ cnt r4.primary "k1" = 1 ∧
     cnt r4.primary "" = 1 ∧ keyRequestError r4 = some (.failures 2 3) := by decide
+example : alookup r4.messages "b" = some (.text "boom") ∧ alookup r4.messages "c" = some .decodeFailed ∧
+    alookup r4.messages "a" = none ∧ alookup r4.messages "d" = none := by decide
 example : keyRequestError (streamKeyResp 2 [okR "a" ["k"] "k"]) = some (.missing 1 2) := by decide
 example : keyRequestError (streamKeyResp 2 [okR "a" ["k"] "k", okR "b" ["k"] "k"]) = none := by decide
 -- Truncation: 40 bytes per key + 30 of envelope (+20 for a notice), limit 200, 10 keys: 200/25 = 8 attempts after the full one.
